@@ -814,4 +814,6 @@ func runC13(r *an.Run) {
 		})
 
 	retrySafeClosures(r, []string{"contractcourt"}, `.`, 8, "the arbitrator log and the resolver checkpoints are the recorded stage the restart resumes from; a retried transaction must write exactly what the first attempt would have")
+
+	relaunchCompleteness(r)
 }
